@@ -1,31 +1,30 @@
 /-
-  C17, open part: the unchanged code (`Variant.current`) violates the full statements of
-  Props/C17.lean.  Each witness is a concrete history / interleaving, evaluated by the kernel; the
-  same schedules are replayed on the real code by the harness (c17conc.go corpus, c17e2e.go).
+  C17 — nothing is open for the current code: the statements of Props/C17.lean hold at full
+  strength, without side condition.
 
-  * `seq_refines_map_full_false`       a fresh account answers WITHOUT its uid/gid (sequentially!):
-                                       IAMCache.CreateAccount builds the cache entry from Access,
-                                       Secret, Role only                [iam:create:cache-entry-drops-uid-gid]
-  * `lookup_after_ack_full_false`      a lookup that has fetched, then a complete, acknowledged
-                                       delete, then the lookup's cache.set: every later lookup finds
-                                       the deleted account until the TTL ends  [iam:miss-in-flight-vs-delete:stale-cache]
-  * `old_secret_after_update`          the same with an update: the old secret keeps working
-                                                                        [iam:miss-in-flight-vs-update:stale-cache]
-  * `deleted_account_after_create_race` create decided, delete runs completely, create writes its
-                                       cache entry                      [iam:create-in-flight-vs-delete:stale-cache]
-  * `updates_cached_out_of_order`      two updates whose cache steps run in the opposite order of
-                                       their store steps                [iam:update-in-flight-vs-update:stale-cache]
-  * `stale_uid_outlives_ttl`           the entry without uid/gid expires, is not pruned yet, and an
-                                       update resurrects it (icache.update refreshes expired entries)
+  This file keeps REGRESSION EXAMPLES about the OLD revision only (`Variant.oldWriteThrough`: the
+  write-through account cache of /repo before 6f25651, whose CreateAccount built the cache entry
+  from Access, Secret, Role).  They are the kernel-evaluated interleavings on which that revision
+  violated the property; the harness runs the same schedules on the real code as corpus
+  (c17.go, c17conc.go, c17e2e.go), where they must now pass — a failure there carries the signature
+  given in brackets and is a VIOLATION.  Each example is followed by the same schedule on
+  `Variant.current`, where it is harmless.  The definitions are named `old…`; nothing below is a
+  statement about the current code except the lines that say `.current`.
 
-  Each of them falsifies one part of the side condition `QuietAt` of the `_partial` theorems, which
-  shows that no part of it can be dropped.  With docs/C17-fix-2.diff (`invalidate`) the full
-  statements hold (`Props.C17.lookup_after_ack_fixed`, `seq_refines_map_fixed`).
+  * the entry the old CreateAccount cached had no uid/gid          [iam:create:cache-entry-drops-uid-gid]
+  * a lookup in flight across a delete re-inserted the account      [iam:miss-in-flight-vs-delete:stale-cache]
+  * … across an update kept the old secret valid                   [iam:miss-in-flight-vs-update:stale-cache]
+  * a create in flight across a delete cached the deleted account   [iam:create-in-flight-vs-delete:stale-cache]
+  * two updates cached in the opposite order of their store order   [iam:update-in-flight-vs-update:stale-cache]
+  * an update resurrected the expired entry without uid/gid
 -/
 import Vgw.Props.C17
 namespace Vgw.Open.C17
 open Vgw Vgw.Model.IAM Vgw.Props.C17
 open Vgw.Model.Gw (Account Role)
+
+/-- the regression model -/
+abbrev old : Variant := .oldWriteThrough
 
 def root : Account := { access := [114], secret := [1], role := .admin }
 def cfg : Cfg := { root := root, ttl := 5 }
@@ -35,107 +34,96 @@ def acc : Account := { access := [97], secret := [2], role := .userplus, uid := 
 theorem start_empty : Start cfg [] := ⟨by decide, by simp [keysNodup]⟩
 theorem start_acc : Start cfg [acc] := ⟨by decide, by simp [keysNodup, acc]⟩
 
-/-! ### the entry CreateAccount caches has no uid/gid -/
+/-! ### OLD: the entry CreateAccount cached had no uid/gid -/
 
-def seqWitness : List SeqAct := [.call (.create acc), .call (.get [97])]
+def oldSeqWitness : List SeqAct := [.call (.create acc), .call (.get [97])]
 
-/-- what the model (and the real code) answers: uid 0, gid 0 -/
-theorem seqWitness_answers : seqRun .current cfg (init []) seqWitness =
-    [some .ok, some (.acct { acc with uid := 0, gid := 0 })] := by decide
-
-theorem seq_refines_map_full_false : ¬ seq_refines_map_full := by
+/-- OLD revision: a fresh account answered with uid 0, gid 0 — not a refinement of the map -/
+example : seqRun old cfg (init []) oldSeqWitness = [some .ok, some (.acct { acc with uid := 0, gid := 0 })] := by decide
+example : ¬ SeqRefines cfg (abs []) oldSeqWitness (seqRun old cfg (init []) oldSeqWitness) := by
+  have e : seqRun old cfg (init []) oldSeqWitness = [some .ok, some (.acct { acc with uid := 0, gid := 0 })] := by decide
+  rw [e]
+  simp only [oldSeqWitness, seqRefines_call]
   intro h
-  have := h cfg [] 0 seqWitness start_empty
-  rw [seqWitness_answers] at this
-  simp only [seqWitness, seqRefines_call] at this
-  have h2 := this.2.1
+  have h2 := h.2.1
   revert h2
   decide
+/-- current code: all attributes at once -/
+example : seqRun .current cfg (init []) oldSeqWitness = [some .ok, some (.acct acc)] := by decide
 
-/-! ### a lookup in flight across a delete re-inserts the account -/
-
-/-- lookup 0 of `a`: cache miss, RLock, read, RUnlock — parked before cache.set;
-delete 1 of `a`: runs from invocation to return (acknowledged) -/
-def raceDel₁ : List Act :=
-  [.invoke (.get [97]), .step 0, .step 0, .step 0, .step 0, .invoke (.delete [97])] ++ List.replicate 8 (.step 1)
-/-- lookup 0 stores what it fetched; then a NEW lookup 2 is invoked and runs -/
-def raceDel₂ : List Act := [.step 0, .invoke (.get [97]), .step 2]
-
-theorem raceDel_acked : (run .current cfg (init [acc]) raceDel₁).calls[1]? = some ⟨.delete [97], .done .ok⟩ := by decide
-theorem raceDel_store : (run .current cfg (init [acc]) raceDel₁).committed = [] := by decide
-theorem raceDel_answer :
-    (run .current cfg (run .current cfg (init [acc]) raceDel₁) raceDel₂).calls[2]? = some ⟨.get [97], .done (.acct acc)⟩ := by decide
-
-theorem lookup_after_ack_full_false : ¬ lookup_after_ack_full := by
-  intro h
-  have := h cfg [acc] 0 raceDel₁ raceDel₂ start_acc [97] (noMutB_sound (by decide))
-    (by intro op hop hm; simp [raceDel₂] at hop; subst hop; cases hm)
-    2 (.acct acc) (by decide) raceDel_answer
-  rw [raceDel_store] at this
-  revert this
-  decide
-
-/-- the stale entry lives until the TTL ends: at clock 4 the deleted account is still found, at
-clock 5 it is gone (test) -/
-example : (run .current cfg (run .current cfg (init [acc]) raceDel₁)
-    [.step 0, .tick 4, .invoke (.get [97]), .step 2]).calls[2]? = some ⟨.get [97], .done (.acct acc)⟩ := by decide
-example : (run .current cfg (run .current cfg (init [acc]) raceDel₁)
-    ([.step 0, .tick 5, .invoke (.get [97])] ++ List.replicate 5 (.step 2))).calls[2]? = some ⟨.get [97], .done .noSuchUser⟩ := by decide
-
-/-- the schedule is not quiet: the rename of the delete happens while lookup 0 holds a fetched value -/
-example : quietRunB .current cfg (init [acc]) (raceDel₁ ++ raceDel₂) = false := by decide
-
-/-! ### ... and across an update keeps the old secret valid -/
-
-def raceUpd₁ : List Act :=
-  [.invoke (.get [97]), .step 0, .step 0, .step 0, .step 0, .invoke (.update [97] { secret := some [9] })] ++ List.replicate 8 (.step 1)
-
-theorem old_secret_after_update :
-    (run .current cfg (init [acc]) raceUpd₁).calls[1]? = some ⟨.update [97] { secret := some [9] }, .done .ok⟩ ∧
-    (run .current cfg (init [acc]) raceUpd₁).committed = [{ acc with secret := [9] }] ∧
-    (run .current cfg (run .current cfg (init [acc]) raceUpd₁) raceDel₂).calls[2]? = some ⟨.get [97], .done (.acct acc)⟩ := by
-  decide
-
-/-! ### concurrent changes of one key: cache steps in another order than store steps -/
-
-/-- create 0 decided and unlocked (parked before its cache step); delete 1 complete; create 0 caches -/
-def raceCreate : List Act :=
-  [.invoke (.create { acc with uid := 0, gid := 0 })] ++ List.replicate 7 (.step 0) ++
-  [.invoke (.delete [97])] ++ List.replicate 8 (.step 1) ++ [.step 0, .invoke (.get [97]), .step 2]
-
-theorem deleted_account_after_create_race :
-    (run .current cfg (init []) raceCreate).calls[0]? = some ⟨.create { acc with uid := 0, gid := 0 }, .done .ok⟩ ∧
-    (run .current cfg (init []) raceCreate).calls[1]? = some ⟨.delete [97], .done .ok⟩ ∧
-    (run .current cfg (init []) raceCreate).committed = [] ∧
-    (run .current cfg (init []) raceCreate).log = [⟨0, .create { acc with uid := 0, gid := 0 }, .ok⟩, ⟨1, .delete [97], .ok⟩] ∧
-    (run .current cfg (init []) raceCreate).calls[2]? = some ⟨.get [97], .done (.acct { acc with uid := 0, gid := 0 })⟩ := by
-  decide
-
-/-- the entry is warm; update 1 (secret 8) and update 2 (secret 9) are decided in that order, their
-cache steps run in the opposite order: the store says 9, every lookup answers 8 -/
-def raceUpdUpd : List Act :=
-  [.invoke (.get [97])] ++ List.replicate 5 (.step 0) ++
-  [.invoke (.update [97] { secret := some [8] })] ++ List.replicate 7 (.step 1) ++
-  [.invoke (.update [97] { secret := some [9] })] ++ List.replicate 8 (.step 2) ++ [.step 1, .invoke (.get [97]), .step 3]
-
-theorem updates_cached_out_of_order :
-    (run .current cfg (init [acc]) raceUpdUpd).committed = [{ acc with secret := [9] }] ∧
-    (run .current cfg (init [acc]) raceUpdUpd).calls[3]? = some ⟨.get [97], .done (.acct { acc with secret := [8] })⟩ := by
-  decide
-
-/-! ### the entry without uid/gid can outlive the TTL -/
-
-theorem stale_uid_outlives_ttl : seqRun .current cfg (init [])
-    [.call (.create acc), .tick 6, .call (.update [97] { secret := some [9] }), .call (.get [97]), .tick 4, .call (.get [97])] =
+/-- OLD revision: the entry expired, was not pruned yet, and an update resurrected it
+(icache.update refreshed expired entries): the wrong uid/gid outlived the TTL -/
+def oldResurrect : List SeqAct :=
+  [.call (.create acc), .tick 6, .call (.update [97] { secret := some [9] }), .call (.get [97]), .tick 4, .call (.get [97])]
+example : seqRun old cfg (init []) oldResurrect =
     [some .ok, some .ok, some (.acct { acc with secret := [9], uid := 0, gid := 0 }),
      some (.acct { acc with secret := [9], uid := 0, gid := 0 })] := by decide
+example : seqRun .current cfg (init []) oldResurrect =
+    [some .ok, some .ok, some (.acct { acc with secret := [9] }), some (.acct { acc with secret := [9] })] := by decide
 
-/-! ### with fix 2 the same schedules are harmless (tests; the theorem is `lookup_after_ack_fixed`) -/
+/-! ### OLD: a lookup in flight across a delete re-inserted the account -/
 
-def fix2 : Variant := { invalidate := true }
+/-- lookup 0 of `a`: cache miss, RLock, read, RUnlock — parked before its cache step;
+delete 1 of `a`: runs from invocation to return (acknowledged) -/
+def oldRaceDel₁ : List Act :=
+  [.invoke (.get [97]), .step 0, .step 0, .step 0, .step 0, .invoke (.delete [97])] ++ List.replicate 8 (.step 1)
+/-- lookup 0 takes its cache step; then a NEW lookup 2 is invoked and runs to its return -/
+def oldRaceDel₂ : List Act := [.step 0, .invoke (.get [97])] ++ List.replicate 5 (.step 2)
 
-example : (run fix2 cfg (run fix2 cfg (init [acc]) raceDel₁) ([.step 0, .invoke (.get [97])] ++ List.replicate 5 (.step 2))).calls[2]? =
+/-- OLD revision: the acknowledged delete (store empty) was followed by a lookup that found the account -/
+example : (run old cfg (init [acc]) oldRaceDel₁).calls[1]? = some ⟨.delete [97], .done .ok⟩ ∧
+    (run old cfg (init [acc]) oldRaceDel₁).committed = [] ∧
+    (run old cfg (run old cfg (init [acc]) oldRaceDel₁) oldRaceDel₂).calls[2]? = some ⟨.get [97], .done (.acct acc)⟩ := by decide
+/-- i.e. `LookupAfterAck` failed for the OLD revision -/
+example : ¬ LookupAfterAck old cfg [acc] 0 oldRaceDel₁ oldRaceDel₂ := by
+  intro h
+  have := h [97] (noMutB_sound (by decide))
+    (by intro op hop hm; simp [oldRaceDel₂] at hop; subst hop; cases hm)
+    2 (.acct acc) (by decide) (by decide)
+  have e : (run old cfg (init [acc]) oldRaceDel₁).committed = [] := by decide
+  rw [e] at this
+  revert this
+  decide
+/-- the schedule violates the side condition the old revision needed -/
+example : quietRunB old cfg (init [acc]) (oldRaceDel₁ ++ oldRaceDel₂) = false := by decide
+/-- current code, same schedule: the generation moved on, the lookup's store is dropped, "no such user" -/
+example : (run .current cfg (run .current cfg (init [acc]) oldRaceDel₁) oldRaceDel₂).calls[2]? =
     some ⟨.get [97], .done .noSuchUser⟩ := by decide
-example : seqRun fix2 cfg (init []) seqWitness = [some .ok, some (.acct acc)] := by decide
+
+/-! ### OLD: … and across an update kept the old secret valid -/
+
+def oldRaceUpd₁ : List Act :=
+  [.invoke (.get [97]), .step 0, .step 0, .step 0, .step 0, .invoke (.update [97] { secret := some [9] })] ++ List.replicate 8 (.step 1)
+
+example : (run old cfg (init [acc]) oldRaceUpd₁).calls[1]? = some ⟨.update [97] { secret := some [9] }, .done .ok⟩ ∧
+    (run old cfg (init [acc]) oldRaceUpd₁).committed = [{ acc with secret := [9] }] ∧
+    (run old cfg (run old cfg (init [acc]) oldRaceUpd₁) oldRaceDel₂).calls[2]? = some ⟨.get [97], .done (.acct acc)⟩ := by decide
+example : (run .current cfg (run .current cfg (init [acc]) oldRaceUpd₁) oldRaceDel₂).calls[2]? =
+    some ⟨.get [97], .done (.acct { acc with secret := [9] })⟩ := by decide
+
+/-! ### OLD: concurrent changes of one key, cache steps in another order than store steps -/
+
+/-- create 0 decided and unlocked (parked before its cache step); delete 1 complete; create 0 takes
+its cache step; lookup 2 -/
+def oldRaceCreate : List Act :=
+  [.invoke (.create { acc with uid := 0, gid := 0 })] ++ List.replicate 7 (.step 0) ++
+  [.invoke (.delete [97])] ++ List.replicate 8 (.step 1) ++ [.step 0, .invoke (.get [97])] ++ List.replicate 5 (.step 2)
+
+example : (run old cfg (init []) oldRaceCreate).committed = [] ∧
+    (run old cfg (init []) oldRaceCreate).log = [⟨0, .create { acc with uid := 0, gid := 0 }, .ok⟩, ⟨1, .delete [97], .ok⟩] ∧
+    (run old cfg (init []) oldRaceCreate).calls[2]? = some ⟨.get [97], .done (.acct { acc with uid := 0, gid := 0 })⟩ := by decide
+example : (run .current cfg (init []) oldRaceCreate).calls[2]? = some ⟨.get [97], .done .noSuchUser⟩ := by decide
+
+/-- the entry is warm; update 1 (secret 8) and update 2 (secret 9) are decided in that order, their
+cache steps run in the opposite order -/
+def oldRaceUpdUpd : List Act :=
+  [.invoke (.get [97])] ++ List.replicate 5 (.step 0) ++
+  [.invoke (.update [97] { secret := some [8] })] ++ List.replicate 7 (.step 1) ++
+  [.invoke (.update [97] { secret := some [9] })] ++ List.replicate 8 (.step 2) ++ [.step 1, .invoke (.get [97])] ++ List.replicate 5 (.step 3)
+
+/-- OLD revision: the store said 9, every lookup answered 8 -/
+example : (run old cfg (init [acc]) oldRaceUpdUpd).committed = [{ acc with secret := [9] }] ∧
+    (run old cfg (init [acc]) oldRaceUpdUpd).calls[3]? = some ⟨.get [97], .done (.acct { acc with secret := [8] })⟩ := by decide
+example : (run .current cfg (init [acc]) oldRaceUpdUpd).calls[3]? = some ⟨.get [97], .done (.acct { acc with secret := [9] })⟩ := by decide
 
 end Vgw.Open.C17
